@@ -112,19 +112,32 @@ def stepping_by_hand(ctx: Ctx) -> None:
     torch.manual_seed(ctx.seed + 8)
     model = torch.nn.Sequential(torch.nn.Linear(2, 3, dtype=dtype), torch.nn.Tanh(), torch.nn.Linear(3, 1, dtype=dtype))
     hedger = Hedger(model, ["log_moneyness", "time_to_maturity"])
-    d = EuropeanOption(BrownianStock(dt=0.25, dtype=dtype), maturity=1.0)
+    # (a step size that is NOT a dyadic number: a time computed through single precision on the way differs from the double)
+    d = EuropeanOption(BrownianStock(dt=1 / 250, dtype=dtype), maturity=5 / 250)
     d.simulate(n_paths=3)
+    from pfhedge.features import get_feature
+    for fname in ("time_to_maturity", "expiry_time"):
+        ft = get_feature(fname).of(d)
+        full = ft.get(None)
+        for i in range(full.size(1)):
+            one = ft.get(i)
+            ctx.count(("time-feature-double", fname), n=1)
+            if one.dtype != dtype or not bool(((one - full[:, [i]]).abs() <= 8 * torch.finfo(dtype).eps * full.abs().max()).all()):
+                ctx.violation(f"feature:{fname}:step-vs-all:double-precision", f"{fname}.get({i}) differs from column {i} of get(None) beyond double-precision rounding (dt = 1/250, float64)",
+                              {"step": i, "single": one.flatten().tolist()[:2], "column": full[:, [i]].flatten().tolist()[:2]})
+                break
     steps = [("first use", lambda: None), ("a new simulation", lambda: d.simulate(n_paths=3)), ("the contract re-struck", lambda: setattr(d, "strike", 1.25)),
              ("inputs replaced by others of the same width", lambda: setattr(hedger, "inputs", FeatureList(["moneyness", "volatility"]))),
              ("a new simulation with another number of paths", lambda: d.simulate(n_paths=2))]
     for label, act in steps:
         act()
         with torch.no_grad():
-            whole = hedger.compute_hedge(d)                                    # (N, 1, T)
-            T = whole.size(-1)
+            T = d.ul().spot.size(1)
             try:
+                # (by hand FIRST: whatever get_input remembers from before the re-configuration must not be served now)
                 by_hand = torch.cat([model(hedger.get_input(d, i)) for i in range(T - 1)], dim=-2).transpose(-1, -2)
                 all_in = hedger.get_input(d, None)
+                whole = hedger.compute_hedge(d)                                # (N, 1, T)
             except Exception as e:
                 ctx.violation("stepping-by-hand:raises", f"hedger.get_input raised {type(e).__name__} ({label})", {"error": repr(e)[:200]})
                 continue
